@@ -34,6 +34,8 @@ def cargo_env():
 def build(enum_too=False, packages=("vrun",)):
     """Rebuild the harness against /repo's current working tree (hooks on). packages=None builds the whole workspace."""
     t = time.time()
+    if os.environ.get("VERIF_NOBUILD"):  # maintenance only: binaries were built by hand (e.g. against a scratch worktree)
+        return 0.0
     lock = os.path.join(HARNESS, "Cargo.lock")
     if not os.path.exists(lock):
         shutil.copy("/repo/Cargo.lock", lock)
@@ -277,6 +279,10 @@ class Check:
             print(f"... {len(self.violations) - 200} more violations (replay files under {OUT}/replays/{self.prop})")
         cov = self.cov
         cov["known_findings_matched"] = len(self.known_hits)
+        # maintenance aid (not evidence): which listed findings were met by this run, for pruning lists after a fix
+        os.makedirs(os.path.join(OUT, "known_hits"), exist_ok=True)
+        with open(os.path.join(OUT, "known_hits", f"{self.prop}-{self.tier}.json"), "w") as f:
+            json.dump([[ck, ok] for ck, ok, _, _ in self.known_hits], f)
         if not cov["samples"]:
             cov["samples"] = ["<none>"]
         ev = {"property_id": self.prop, "tier": self.tier, "seed": self.seed, "level": "model_checking",
